@@ -6,8 +6,10 @@ Shared by harness/props/c18.py (C18) and harness/props/loadfail.py (document-loa
                       field: {"kind": "any"} | {"kind": "int"} | {"kind": "include", "startdir": <chars>}
                       (a start directory may begin with "~": the home directory, $/H while a case runs)
   file system         [[<path chars, "$" = scratch root>, <entry>], ...]
-                      entry: {"k": "file", "v": <abstract value>} | {"k": "dir"} | {"k": "unparseable"}
-                             | {"k": "unreadable"}
+                      entry: {"k": "file", "v": <abstract value>[, "tag": <root element chars, XML only>]}
+                             | {"k": "dir"} | {"k": "unparseable"} | {"k": "unreadable"}
+  options             {"fmt": <format> | "any", "rk": <YAML root_key chars, [] = none>, "tag": <XML root_tag chars>,
+                       "pretty": <JSON pretty>, "explicit": <keyword arguments are passed at all>}
   configuration       {"t": "cfg", "kv": [[<key chars>, value | configuration], ...], "dflt": [<key chars>...]}
 
 Documents are written with the third-party encoders directly (json, yaml, bson, pickle) and a
@@ -73,8 +75,38 @@ def _xml_element(key, value):
     return ele
 
 
-def encode(fmt, value):
-    """Bytes of the document holding `value` in format `fmt` (independent encoders)."""
+DEFAULT_TAG = "config"
+
+
+def default_opt(fmt="any"):
+    return {"fmt": fmt, "rk": [], "tag": chars(DEFAULT_TAG), "pretty": True, "explicit": False}
+
+
+def tag_of(entry):
+    """Root element of a document / file entry (XML only; the default when not stated)."""
+    return text(entry["tag"]) if entry.get("tag") is not None else DEFAULT_TAG
+
+
+def kwargs_of(opt, variant=0):
+    """Keyword arguments of Config.loads(...) for the abstract options; {} when none are passed.
+
+    A YAML root key "none" is passed as None or as "" (both falsy), by `variant`."""
+    if not opt or not opt.get("explicit"):
+        return {}
+    fmt = opt["fmt"]
+    if fmt == "yaml":
+        rk = text(opt["rk"])
+        return {"root_key": rk if rk else (None if variant % 2 == 0 else "")}
+    if fmt == "xml":
+        return {"root_tag": text(opt["tag"])}
+    if fmt == "json":
+        return {"pretty": bool(opt["pretty"])}
+    raise ValueError("format %s has no options" % fmt)
+
+
+def encode(fmt, value, tag=DEFAULT_TAG):
+    """Bytes of the document holding `value` in format `fmt` (independent encoders); `tag`: the
+    root element of an XML document (other formats have none)."""
     if fmt == "json":
         return json.dumps(value).encode()
     if fmt == "yaml":
@@ -92,12 +124,13 @@ def encode(fmt, value):
     if fmt == "xml":
         if not isinstance(value, dict):
             raise NotRepresentable("xml document must be a map")
-        return ET.tostring(_xml_element("config", value), "utf-8")
+        return ET.tostring(_xml_element(tag, value), "utf-8")
     raise ValueError(fmt)
 
 
-def third_party_parse(fmt, data):
-    """Parse with the third-party parser alone: ("ok", value) | ("error", None) | ("unknown", None)."""
+def third_party_parse(fmt, data, tag=DEFAULT_TAG):
+    """Parse with the third-party parser alone: ("ok", value) | ("error", None) | ("unknown", None).
+    An XML document whose root element is not `tag` counts as an error."""
     try:
         if fmt == "json":
             return "ok", json.loads(data.decode())
@@ -113,9 +146,9 @@ def third_party_parse(fmt, data):
             return "ok", bson.loads(data)
         if fmt == "xml":
             root = ET.fromstring(data.decode())
-            if root.tag != "config":
+            if root.tag != tag:
                 return "error", None
-            return "unknown", None  # a well-formed <config> document: element mapping not re-implemented here
+            return "unknown", None  # a well-formed document with that root: element mapping not re-implemented here
     except Exception:  # noqa
         return "error", None
     raise ValueError(fmt)
@@ -169,7 +202,7 @@ class FsWorld:
             os.makedirs(os.path.dirname(path), exist_ok=True)
             if e["k"] == "file":
                 try:
-                    data = encode(fmt, codec.to_py(e["v"], root))
+                    data = encode(fmt, codec.to_py(e["v"], root), tag_of(e))
                 except NotRepresentable:
                     self.unrepresentable.add(p)
                     data = GARBAGE
@@ -313,8 +346,10 @@ class LoadResult:
         self.repl = None
 
 
-def run_load(cinco, world, schema, desc, pre, data, via="loads", doc_name="doc"):
-    """A configuration of `schema`, an earlier load_tree(pre), then load(s) of `data`."""
+def run_load(cinco, world, schema, desc, pre, data, via="loads", doc_name="doc", kwargs=None):
+    """A configuration of `schema`, an earlier load_tree(pre), then load(s) of `data`;
+    `kwargs`: formatter options, passed as keyword arguments to the entry point."""
+    kwargs = kwargs or {}
     res = LoadResult()
     root = world.root
     with world.active():
@@ -327,9 +362,9 @@ def run_load(cinco, world, schema, desc, pre, data, via="loads", doc_name="doc")
                 path = os.path.join(root, "docs", "%s.%s" % (doc_name, world.fmt))
                 with open(path, "wb") as fp:
                     fp.write(data)
-                cfg.load(path, format=world.fmt)
+                cfg.load(path, format=world.fmt, **kwargs)
             else:
-                cfg.loads(data, format=world.fmt)
+                cfg.loads(data, format=world.fmt, **kwargs)
             res.out = "ok"
         except Exception as exc:  # noqa - any exception is a rejection; the class is left open
             res.out = "rejected"
